@@ -100,9 +100,16 @@ fn pc_typed<T: Elem>(p: &PcParams) {
         for part in wscript {
             let mut spins = 0;
             loop {
+                // Free space only grows while this (the only) writer looks on:
+                // a window taken after the query offers at least that much.
+                let f = w.free();
                 let mut wb = w.write_buf().unwrap();
                 if wb.len() > cap {
                     violate("window-too-long", format!("write window of {} > capacity {cap}", wb.len()));
+                    return;
+                }
+                if f > wb.len() {
+                    violate("free-query", format!("free() said {f}, the write window taken right after has {}", wb.len()));
                     return;
                 }
                 if wb.len() >= part {
